@@ -6,8 +6,8 @@ import TextxVerif.Tx.Build
 — no parser model, no parse tree, none of Arpeggio's result conventions:
 
 * textbook PEG: sequence, *ordered* choice (the first alternative that succeeds
-  is taken), optional, greedy `*` / `+` with separator (a separator is consumed
-  only when an element follows), `#` (every element once, in any order, elements
+  is taken), optional, greedy `*` / `+` with separator (`y+` is `y (sep y)*`; a separator
+  is consumed only when an element follows; an iteration that consumes nothing ends the loop), `#` (every element once, in any order, elements
   that can match nothing may be absent), `&` / `!` without consumption,
   suppression `-` (matches, contributes nothing);
 * before every string / regex match: whitespace of the active set is skipped when
@@ -308,9 +308,13 @@ def pExpr (x : Env) (cm : Option Nat) : Nat → Ctx → Expr → Nat → SRes (L
         | r => r
       | .rep op y sep eol _ =>
         let c1 := if eol then { c with eol := true } else c
-        match pRep x cm f c1 y sep pos [] true with
-        | .ok p items => if op = .plus && p = pos && items.isEmpty then .fail else .ok p items
-        | r => r
+        match op with
+        | .plus =>
+          -- `y+` is `y` followed by `(sep y)*`
+          match pExpr x cm f c1 y pos with
+          | .ok p1 items1 => if p1 = pos then .ok p1 items1 else pRep x cm f c1 y sep p1 items1 false
+          | r => r
+        | _ => pRep x cm f c1 y sep pos [] true
       | .unord xs sep eol _ =>
         let c1 := if eol then { c with eol := true } else c
         pUnord x cm f c1 xs sep pos [] true
@@ -331,10 +335,17 @@ def pExpr (x : Env) (cm : Option Nat) : Nat → Ctx → Expr → Nat → SRes (L
           | r => r
         | op =>
           let c1 := if eol then { c with eol := true } else c
-          match pRep x cm f c1 rhs sep pos [] true with
+          let r : SRes (List Item) :=
+            match op with
+            | .plus =>
+              match pExpr x cm f c1 rhs pos with
+              | .ok p1 items1 => if p1 = pos then .ok p1 items1 else pRep x cm f c1 rhs sep p1 items1 false
+              | r => r
+            | _ => pRep x cm f c1 rhs sep pos [] true
+          match r with
           | .ok p items =>
             let vs := (items.filter (fun i => !isSep i)).filterMap x.itemValue
-            if vs.isEmpty then (if op = .plus then .fail else .ok p []) else .ok p [.asg a op vs]
+            .ok p (if vs.isEmpty then [] else [.asg a op vs])
           | r => r
       | .pred neg y _ =>
         match pExpr x cm f c y pos with
